@@ -34,8 +34,10 @@ LEVEL_TEXT = ('Theorems for every grid (any bbox, tile size, positive resolution
               'for the integer helpers, by definitions generated from the source and proved equal to the model.')
 LEVEL_NOTE = ('Trusted: Coq kernel; hand-written model Grid.v; translator spec grid_int.py; the correspondence harness. IEEE-754 '
               'rounding of grid.py is not modelled: the exact stream (integer parameters) must agree bit for bit, on the realistic '
-              'stream and for +-1 ulp queries the oracle allows 1e-9 tile units. threshold_res is modelled (closest_level_thr) with a partial '
-              'specification theorem (single threshold); string level names are not modelled.')
+              'stream and for +-1 ulp queries the oracle allows 1e-9 tile units. threshold_res is modelled (closest_level_thr): switch rule proved for any '
+              'threshold list relative to the threshold state thr_pass; requests in another SRS: PROJ is external, the model takes '
+              'the transformed outline points (curved outline between the 16 sampled points not covered); string level names are '
+              'not modelled.')
 DESIGN_REF = 'DESIGN.md section 5, C03'
 RULE = ('case = (grid, API function, arguments); non-trivial = query on / next to / away from a tile edge or level boundary '
         'on a grid whose extent is not a multiple of the tile span or has a custom resolution list; distinct by full tuple')
@@ -46,7 +48,9 @@ TRUSTED = ['model Grid.v hand-written from mapproxy/grid.py; tie = differential 
 ASSUMPTIONS = ['resolutions positive (closest_level: strictly decreasing, stretch_factor >= 1), bbox non-degenerate, tile size positive',
                'numerically meaningful range: resolution >= 1e-9 of the coordinate magnitude',
                'integer level indices (string level names of limit_tile not modelled)',
-               'closest_level_spec: threshold_res = None; with thresholds only closest_level_thr_switch_partial is proved']
+               'closest_level_spec: threshold_res = None; with thresholds closest_level_thr_general (switch rule at the level where the '
+               'current threshold is hit) is proved, not a closed form of the result for every request',
+               'foreign-SRS requests: PROJ transformation of the 16 outline points is taken as given (harness calls the same PROJ)']
 EXPLANATION = 'grid arithmetic proved over Z for all grids; implementation compared on exact and realistic streams'
 GEN = ['Gen_grid_int.v']
 CORPUS = os.path.join(os.path.dirname(os.path.dirname(os.path.dirname(os.path.abspath(__file__)))), 'corpus', 'C03')
@@ -116,6 +120,11 @@ def make_grids(ctx):
         lambda: tile_grid(4326, bbox=(5.0, 45.0, 15.5, 55.25), res_factor=1.5, num_levels=8, origin='ul'),
         lambda: tile_grid(3857, bbox=(-20037508.34, -20037508.34, 20037508.34, 20037508.34), min_res=156543.0339, num_levels=10),
         lambda: tile_grid(4326, tile_size=(360, 180), num_levels=6),
+        # degree grids deeper than the default 20 levels: tile extents of 1e-5 degree, tile indices in the millions
+        # (an error relative to the tile extent is multiplied by the index)
+        lambda: tile_grid(4326, num_levels=23),
+        lambda: tile_grid(4326, num_levels=23, origin='ul'),
+        lambda: tile_grid(4326, bbox=(5.0, 45.0, 15.5, 55.25), res=[1e-4, 3e-5, 1e-5, 3e-6, 1e-6, 7e-7]),
         lambda: tile_grid(3857, bbox=(1000000.1, 6000000.3, 1234567.8, 6543210.9), res=[305.7, 152.8, 76.4, 38.2, 19.1, 9.55]),
     ]
     for mk in real:
@@ -217,13 +226,13 @@ def edge_values(gc, rng, level, axis, ulp=False):
     out = []
     ulps = []
     for _ in range(3):
-        i = rng.choice([0, 1, n - 1, n, n + 1, -1, rng.randrange(0, n + 1)])
+        i = rng.choice([0, 1, n - 1, n, n + 1, -1, rng.randrange(0, n + 1), rng.randrange(n // 2, n + 1), n - 2])
         if axis == 1 and gc.ul:
             e = hi - i * span
         else:
             e = lo + i * span
         for off in (0.0, r / 10.0, -r / 10.0, r / 8.0, -r / 8.0, r / 10.0 + 0.125, r / 10.0 - 0.125, 0.125, -0.125,
-                    r / 2.0, span / 2.0, r, -r, r / 9.0, -r / 9.0):
+                    r / 2.0, span / 2.0, r, -r, r / 9.0, -r / 9.0, 2 * r, -2 * r, 5 * r, -5 * r):
             out.append(e + off)
         ulps += [math.nextafter(e, math.inf), math.nextafter(e, -math.inf),
                  math.nextafter(e + r / 10.0, math.inf), math.nextafter(e - r / 10.0, -math.inf)]
@@ -235,7 +244,11 @@ def edge_values(gc, rng, level, axis, ulp=False):
         if gc.kind == 'exact':
             v = math.floor(v * 8) / 8.0
         else:
-            v = math.floor(v * 2 ** 20) / 2.0 ** 20
+            # quantum: 1/128 pixel of the level (at least 2^-20), not finer than the scale of the grid allows
+            den = gc.S // 10
+            kmax = den.bit_length() - 1 if den & (den - 1) == 0 else 60
+            kb = min(max(20, int(math.ceil(-math.log2(r))) + 7), kmax)
+            v = math.floor(v * 2.0 ** kb) / 2.0 ** kb
         if gc.can_scale(v):
             res.append(v)
     if ulp:
@@ -243,10 +256,14 @@ def edge_values(gc, rng, level, axis, ulp=False):
     return res
 
 
-def level_sample(gc, rng, k):
+def level_sample(gc, rng, k, deepest=False):
     n = len(gc.res)
     ls = list(range(n))
     rng.shuffle(ls)
+    if deepest:
+        # always the finest level (largest tile indices, smallest extents), on realistic grids also the one above
+        must = [n - 1] + ([n - 2] if gc.kind == 'real' and n > 1 else [])
+        ls = must + [l for l in ls if l not in must]
     return sorted(ls[:k])
 
 
@@ -263,7 +280,7 @@ class Run(object):
     def __init__(self, ctx):
         self.ctx = ctx
         self.T = {name: ([], []) for name in ('tile', 'tile_bbox', 'sizes', 'flip', 'limit', 'origin', 'affected', 'closest',
-                                              'afflevel', 'gen_flip', 'gen_limit', 'gen_list', 'closest_thr')}
+                                              'afflevel', 'gen_flip', 'gen_limit', 'gen_list', 'closest_thr', 'foreign', 'envelope')}
         self.skipped = 0
         self.tolerance_oracle = 0
 
@@ -652,7 +669,7 @@ def run(ctx):
         nlev = len(gc.res)
         check_grid(R, gc)
 
-        for l in level_sample(gc, rng, ctx.n(3, 5)):
+        for l in level_sample(gc, rng, ctx.n(3, 5), deepest=True):
             r = gc.res[l]
             nx, ny = gc.grid_size(l)
             xs = edge_values(gc, rng, l, 0)
@@ -744,6 +761,9 @@ def run(ctx):
 
     # --- generated _create_tile_list against the Python generator, on arbitrary lists
     gen_list_cases(R)
+    # --- requests in another SRS than the grid (outline points transformed by PROJ)
+    grids += foreign_cases(R)
+    envelope_cases(R)
     # --- closest_level on grids with threshold_res
     thr_grids = threshold_cases(R)
     grids += thr_grids
@@ -783,6 +803,14 @@ def run(ctx):
     ctx.corr_check('closest_level_threshold_res', I, 'grid * list Z * Z * Z * Z', T['closest_thr'][0],
                    "fun c => let '(g, ths, rn, rd, obs) := c in closest_level_thr g ths rn rd =? obs",
                    lambda i: T['closest_thr'][1][i], defs=defs)
+    ctx.corr_check('affected_level_foreign_srs', I, 'grid * list (Z * Z) * Z * Z * option (bbox * Z)', T['foreign'][0],
+                   "fun c => let '(g, pts, sx, sy, obs) := c in "
+                   "match affected_level_foreign g pts sx sy, obs with "
+                   "| Some (b, l), Some (b', l') => bbox_eqb b b' && (l =? l') | None, None => true | _, _ => false end",
+                   lambda i: T['foreign'][1][i], defs=defs, shard=100)
+    ctx.corr_check('generate_envelope_points', I, 'bbox * Z * list (Z * Z)', T['envelope'][0],
+                   "fun c => let '(b, n, obs) := c in pairs_eqb (envelope_points b n) obs",
+                   lambda i: T['envelope'][1][i])
     ctx.corr_check('affected_level', I, 'grid * bbox * Z * Z * option Z', T['afflevel'][0],
                    "fun c => let '(g, b, sx, sy, obs) := c in "
                    "match affected_level g b sx sy, obs with Some a, Some b => a =? b | None, None => true | _, _ => false end",
@@ -802,6 +830,181 @@ def run(ctx):
     ctx.corr_check('gen_create_tile_list', IG, 'list Z * list Z * Z * (Z * Z) * list (option (Z * Z * Z))', T['gen_list'][0],
                    "fun c => let '(xs, ys, l, gs, obs) := c in ocoords_eqb (gen_create_tile_list xs ys l gs) obs",
                    lambda i: T['gen_list'][1][i])
+
+
+def envelope_cases(R):
+    """mapproxy.srs.generate_envelope_points against the model on rectangles whose edge steps are exact doubles"""
+    ctx, rng = R.ctx, R.ctx.rng
+    try:
+        from mapproxy.srs import generate_envelope_points
+    except Exception as e:  # noqa
+        ctx.problem('harness', 'generate_envelope_points cannot be imported: %r' % (e,))
+        return
+    for _ in range(ctx.n(40, 200)):
+        x0, y0 = 7.5 * rng.randrange(-40, 40), 7.5 * rng.randrange(-40, 40)
+        w, h = 7.5 * rng.randrange(0, 30), 7.5 * rng.randrange(0, 30)
+        bb = (x0, y0, x0 + w, y0 + h)
+        if rng.random() < 0.15:
+            bb = (bb[2], bb[1], bb[0], bb[3])
+        n = rng.choice([1, 4, 5, 8, 9, 12, 13, 16, 16, 16, 17, 20, 24, 28])
+        st, pts = call(generate_envelope_points, bb, n)
+        ctx.case(('envelope', bb, n), True)
+        if st != 'ok':
+            ctx.fail('envelope-raises', 'generate_envelope_points raised %r' % (pts,), {'bbox': bb, 'n': n})
+            continue
+        pts = [tuple(q) for q in pts]
+        if not all((frac(v) * 8).denominator == 1 for q in pts for v in q):
+            continue
+        zl = lambda v: zlit(int(frac(v) * 8))
+        R.add('envelope', '((%s, %s, %s, %s), %d, %s)' % (zl(bb[0]), zl(bb[1]), zl(bb[2]), zl(bb[3]), n,
+                                                       llit(pts, lambda q: '(%s, %s)' % (zl(q[0]), zl(q[1])))),
+              {'bbox': bb, 'n': n, 'points': pts})
+        # oracle: the corners are among the points and all points lie on the outline
+        lo_x, hi_x, lo_y, hi_y = min(bb[0], bb[2]), max(bb[0], bb[2]), min(bb[1], bb[3]), max(bb[1], bb[3])
+        if bb[0] <= bb[2] and not all(c in pts for c in ((lo_x, lo_y), (hi_x, lo_y), (hi_x, hi_y), (lo_x, hi_y))):
+            ctx.fail('envelope-corners', 'generate_envelope_points(%r, %d) misses a corner' % (bb, n), {'bbox': bb, 'n': n, 'points': pts})
+
+
+def foreign_cases(R):
+    """get_affected_bbox_and_level / get_affected_tiles with req_srs != grid srs (what CacheMapLayer does for every WMS
+    request).  The 16 outline points the implementation documents are transformed here with the same PROJ calls and
+    handed to the model (affected_level_foreign); oracle: the source rectangle contains every transformed outline point
+    and every such point that lies inside a tile of the grid, more than 1/10 pixel away from the tile's border, is in a
+    reported tile.  Rectangles are moved so that the curved image of an edge crosses a tile border between the corner and
+    the middle of the edge (the situation in which fewer outline points lose a tile row)."""
+    ctx, rng = R.ctx, R.ctx.rng
+    try:
+        from mapproxy.grid import tile_grid
+        from mapproxy.srs import SRS, generate_envelope_points
+    except Exception as e:  # noqa
+        ctx.problem('harness', 'mapproxy cannot be imported: %r' % (e,))
+        return []
+    configs = [
+        ('EPSG:25832', dict(bbox=(0.0, 5000000.0, 1200000.0, 6200000.0), origin='ll'), 'EPSG:4326', (4.0, 46.0, 14.0, 56.0)),
+        ('EPSG:25832', dict(bbox=(243900.0, 4427757.0, 756099.0, 6655205.0), origin='ul',
+                            res=[1000, 500, 250, 100, 50, 25, 10, 5]), 'EPSG:4326', (6.0, 41.0, 12.0, 59.0)),
+        ('EPSG:3857', dict(), 'EPSG:4326', (-170.0, -80.0, 170.0, 80.0)),
+        ('EPSG:4326', dict(bbox=(0.0, 40.0, 20.0, 60.0)), 'EPSG:25832', (300000.0, 5000000.0, 800000.0, 6200000.0)),
+    ]
+    out = []
+    for ci, (gsrs, kw, rsrs, region) in enumerate(configs):
+        g = tile_grid(gsrs, **kw)
+        req = SRS(rsrs)
+        gc = GridCase('f%d' % ci, g, extra_den=2 ** 40)
+        gc.kind = 'real'
+        gc.obs_sizes = [tuple(g.grid_sizes[l]) for l in range(len(gc.res))]
+        out.append(gc)
+        for k in range(ctx.n(10, 40)):
+            rw, rh = region[2] - region[0], region[3] - region[1]
+            w = rw * rng.choice([0.05, 0.2, 0.5, 0.6, 0.9])
+            h = rh * rng.choice([0.05, 0.2, 0.4, 0.5])
+            x0 = region[0] + rng.random() * (rw - w)
+            y0 = region[1] + rng.random() * (rh - h)
+            bb = [math.floor(v * 1024) / 1024.0 for v in (x0, y0, x0 + w, y0 + h)]
+            size = rng.choice([(1000, 800), (256, 256), (512, 300), (2000, 1000), (100, 100)])
+            if k % 2 == 0:
+                bb = hunt_border(g, req, bb, size, rng)
+            check_foreign(R, gc, req, tuple(bb), size, generate_envelope_points)
+    return out
+
+
+def hunt_border(g, req, bb, size, rng):
+    """move the south (or north) edge of the request so that the image of its middle lies 3 pixels beyond a tile row border
+    and the images of its corners on the other side (possible when the edge's image is curved)"""
+    try:
+        src_bbox, level = g.get_affected_bbox_and_level(tuple(bb), size, req_srs=req)
+        res = g.resolution(level)
+        south = rng.random() < 0.6
+        yi = 1 if south else 3
+        xm = (bb[0] + bb[2]) / 2.0
+        pm = req.transform_to(g.srs, (xm, bb[yi]))
+        pc = req.transform_to(g.srs, (bb[0], bb[yi]))
+        if abs(pm[1] - pc[1]) < 8 * res:
+            return bb
+        tb = g.tile_bbox(g.tile(pc[0], pc[1], level))
+        if pm[1] < pc[1]:
+            target = tb[1] - 3 * res      # middle below the bottom border of the corner's row
+        else:
+            target = tb[3] + 3 * res      # middle above the top border of the corner's row
+        back = g.srs.transform_to(req, (pm[0], target))
+        nb = list(bb)
+        nb[yi] = back[1]
+        if nb[1] < nb[3] and all(abs(v) < 1e12 for v in nb):
+            return nb
+    except Exception:  # noqa
+        pass
+    return bb
+
+
+def check_foreign(R, gc, req, bb, size, generate_envelope_points):
+    ctx, g = R.ctx, gc.grid
+    sx, sy = size
+    rep = {'grid': dict(gparams(g), srs=g.srs.srs_code), 'query': {'fn': 'affected_foreign', 'bbox': list(bb), 'size': [sx, sy],
+                                                                  'req_srs': req.srs_code}}
+    ctx.case(('foreign', gc.name, bb, size), True, dict(rep['query'], grid=repr(g)) if len(ctx.samples) < 6 else None)
+    ctx.count('foreign_srs:%s<-%s' % (g.srs.srs_code, req.srs_code))
+    st2, r2 = call(lambda: g.get_affected_bbox_and_level(bb, size, req_srs=req))
+    st, r = call(lambda: (lambda t: (t[0], t[1], [tuple(c) if c is not None else None for c in t[2]]))(
+        g.get_affected_tiles(bb, size, req_srs=req)))
+    if st2 not in ('ok', 'notiles') or st not in ('ok', 'notiles', 'griderror'):
+        ctx.fail('foreign-raises', 'request in %s raised %r / %r' % (req.srs_code, r2, r), rep)
+        return
+    try:
+        tpts = [tuple(q) for q in req.transform_to(g.srs, generate_envelope_points(bb, 16))]
+    except Exception as e:  # noqa
+        ctx.problem('harness', 'outline points cannot be transformed: %r' % (e,))
+        return
+    if not all(math.isfinite(v) for q in tpts for v in q):
+        return
+    ex = (min(frac(q[0]) for q in tpts), min(frac(q[1]) for q in tpts), max(frac(q[0]) for q in tpts), max(frac(q[1]) for q in tpts))
+    if st2 == 'ok':
+        src, level = r2
+        rep['result'] = {'src_bbox': list(src), 'level': level}
+        # oracle: the source rectangle contains the image of every outline point
+        for q in tpts:
+            if not (src[0] <= q[0] <= src[2] and src[1] <= q[1] <= src[3]):
+                ctx.fail('foreign-src-bbox', 'source rectangle %r does not contain the transformed outline point %r' % (tuple(src), q),
+                         dict(rep, point=list(q)))
+                break
+        if st == 'ok':
+            reported = set(t for t in r[2] if t is not None)
+            nx, ny = gc.grid_size(level)
+            mx, my = Fraction(1, 10 * gc.tw), Fraction(1, 10 * gc.th)
+            for q in tpts:
+                fx, fy = gc.tile_pos(q[0], q[1], level)
+                tx, ty = math.floor(fx), math.floor(fy)
+                if not (0 <= tx < nx and 0 <= ty < ny):
+                    continue
+                dx, dy = fx - tx, fy - ty
+                if min(dx, 1 - dx) <= mx + ftol(fx) or min(dy, 1 - dy) <= my + ftol(fy):
+                    continue          # within 1/10 pixel of the tile border: the tile may merely be touched
+                if (tx, ty, level) not in reported:
+                    ctx.fail('foreign-cover', 'outline point %r of the request lies %.1f px inside tile %r which is not reported' % (
+                        q, float(min(dx, 1 - dx, dy, 1 - dy) * min(gc.tw, gc.th)), (tx, ty, level)),
+                        dict(rep, point=list(q), tiles=sorted(reported)[:40]))
+                    break
+    # correspondence with the model on the transformed points
+    if not all(gc.can_scale(v) for q in tpts for v in q):
+        R.skipped += 1
+        return
+    fq = min((ex[2] - ex[0]) / sx, (ex[3] - ex[1]) / sy)
+    q_float = min(abs(float(ex[0]) - float(ex[2])) / sx, abs(float(ex[1]) - float(ex[3])) / sy)
+    if fq <= 0:
+        return
+    mul = lambda x, y: x * y
+    if (level_signature(gc.res, frac(q_float), gc.sf, gc.shr, mul) != level_signature(gc.res, fq, gc.sf, gc.shr, mul)
+            or closest_ambiguous(gc, q_float)):
+        R.skipped += 1
+        return
+    if st2 == 'ok':
+        if not all(gc.can_scale(v) for v in r2[0]):
+            return
+        obs = '(Some (%s, %s))' % (gc.zbbox(r2[0]), zlit(r2[1]))
+    else:
+        obs = 'None'
+    R.add('foreign', '(%s, %s, %d, %d, %s)' % (gc.name, llit(tpts, lambda q: '(%s, %s)' % (zlit(gc.z(q[0])), zlit(gc.z(q[1])))),
+                                          sx, sy, obs),
+          {'grid': repr(g), 'req_srs': req.srs_code, 'bbox': bb, 'size': size, 'result': r2 if st2 == 'ok' else st2})
 
 
 def threshold_cases(R):
